@@ -24,6 +24,7 @@ RULE = (
     '(lattice, site set, label pattern, dimensions, time step); evaluation = one (trace, config) '
     'pushed through Transitions.matrix/occupancy/atom_locations and Jumps.matrix/_counter/counter/'
     'to_graph (default, thresholded, default again)/rates (also with minimal_residence=3)/jump_diffusivity, occupancy of the parts of split(2); distinct = distinct (config, jump matrix, transition matrix, occupancy) outcomes'
+    '; one state-level case with 1100 sites (moves around indices 255/256, 999..1001 and the last site): transition and jump count matrices'
 )
 LEVEL_TEXT = (
     'Bounded-exhaustive: every site history up to the bound (incl. all events from/to "no site", '
